@@ -14,6 +14,13 @@ def gengroup (a : Args) : Option String := do
   let g := Gen.group_gathered_subsamples (fun (it : String × Nat) => it.1) items
   some s!"groups={"|".intercalate (g.map fun (k, its) => s!"{k}:{showNats (its.map (·.2))}")}"
 
+/-- the REGENERATED `gather_subsample_descriptions` on a list of result kinds: d = a description (dict), n = None (failed sample), x = anything else -/
+def gengather (a : Args) : Option String := do
+  let ks := (((a.get? "kinds").getD "").splitOn ",").filter (· ≠ "")
+  let items := ks.zip (List.range ks.length)
+  let kept := Gen.gather_subsample_descriptions (fun (it : String × Nat) => it.1 == "n") (fun (it : String × Nat) => it.1 == "d") items
+  some s!"kept={showNats (kept.map (·.2))}"
+
 def parseCell? (s : String) : Option Subs.Cell :=
   if s.startsWith "n:" then (parseRat? (s.drop 2).toString).map .num
   else if s.startsWith "s:" then some (.str (s.drop 2).toString) else none
@@ -44,6 +51,7 @@ def dispatch (line : String) : String :=
       match cmd with
       | "group" => gengroup a
       | "aggregate" => genaggregate a
+      | "gather" => gengather a
       | _ => some s!"error=unknown-command:{cmd}"
     r.getD "error=bad-arguments"
 
